@@ -431,6 +431,9 @@ func (h *supH) Exec(op string) string {
 		h.build()
 		return h.view()
 	case "end":
+		if len(w) != 2 {
+			return "bad-op"
+		}
 		return "ok"
 	}
 	if h.dead || h.r == nil {
@@ -718,6 +721,7 @@ func (h *supH) runScenario(r *rand.Rand, gran string, ordered bool, procs []genP
 		byName[p.name] = p
 	}
 	probeID := 100
+	reason := "limit"
 	for step := 0; step < maxSteps && !h.dead; step++ {
 		type cand struct {
 			op string
@@ -747,7 +751,8 @@ func (h *supH) runScenario(r *rand.Rand, gran string, ordered bool, procs []genP
 			ops := []string{"start " + tgt, "stop " + tgt, "restart " + tgt, "state " + tgt, "shutdown"}
 			cands = append(cands, cand{fmt.Sprintf("s call %d %s", h.apiN+1, ops[r.Intn(len(ops))]), 2})
 		}
-		if len(cands) == 0 {
+		if len(cands) == 0 || (len(h.enabledKeys()) == 0 && len(h.aliveNames()) == 0 && len(h.armedCtxs()) == 0 && (apiBudget == 0 || r.Intn(2) == 0)) {
+			reason = "quiescent"
 			break
 		}
 		tot := 0
@@ -775,5 +780,5 @@ func (h *supH) runScenario(r *rand.Rand, gran string, ordered bool, procs []genP
 		}
 		emit(pick)
 	}
-	emit("end")
+	emit("end " + reason)
 }
